@@ -15,10 +15,10 @@ theorem exists_of_isOk {ε α} {x : Except ε α} (h : isOk x = true) : ∃ r, x
   | ok r => exact ⟨r, rfl⟩
   | error e => exact Bool.noConfusion h
 
-theorem runLoop_mono_aux (cfg : Cfg) : ∀ n : Nat,
-    (∀ stack w r, runLoop cfg n stack w = .ok r → runLoop cfg (n + 1) stack w = .ok r) ∧
-    (∀ top rest r out s w res, runEnded cfg n top rest r out s w = .ok res →
-       runEnded cfg (n + 1) top rest r out s w = .ok res) := by
+theorem runLoop_mono_aux {κ : Type} (C : CpOps κ) (cfg : Cfg) : ∀ n : Nat,
+    (∀ stack w r, runLoop C cfg n stack w = .ok r → runLoop C cfg (n + 1) stack w = .ok r) ∧
+    (∀ top rest r out s w res, runEnded C cfg n top rest r out s w = .ok res →
+       runEnded C cfg (n + 1) top rest r out s w = .ok res) := by
   intro n
   induction n with
   | zero =>
@@ -29,7 +29,7 @@ theorem runLoop_mono_aux (cfg : Cfg) : ∀ n : Nat,
     constructor
     · intro stack w r h
       rw [runLoop] at h ⊢
-      cases hi : iterate cfg stack w with
+      cases hi : iterate C cfg stack w with
       | error e => rw [hi] at h; simp [bind, Except.bind] at h
       | ok nx =>
         rw [hi] at h
@@ -39,7 +39,7 @@ theorem runLoop_mono_aux (cfg : Cfg) : ∀ n : Nat,
         | done r' w' => simpa [bind, Except.bind] using h
     · intro top rest r out s w res h
       rw [runEnded] at h ⊢
-      cases hi : frameEnd cfg top rest r out s w with
+      cases hi : frameEnd C cfg top rest r out s w with
       | error e => rw [hi] at h; simp [bind, Except.bind] at h
       | ok nx =>
         rw [hi] at h
@@ -48,38 +48,38 @@ theorem runLoop_mono_aux (cfg : Cfg) : ∀ n : Nat,
         | ended t r' rr o s' w' => simp only [bind, Except.bind] at h ⊢; exact ih.2 _ _ _ _ _ _ _ h
         | done r' w' => simpa [bind, Except.bind] using h
 
-theorem runLoop_mono (cfg : Cfg) {n m : Nat} (h : n ≤ m) {stack w r}
-    (hr : runLoop cfg n stack w = .ok r) : runLoop cfg m stack w = .ok r := by
+theorem runLoop_mono {κ : Type} (C : CpOps κ) (cfg : Cfg) {n m : Nat} (h : n ≤ m) {stack w r}
+    (hr : runLoop C cfg n stack w = .ok r) : runLoop C cfg m stack w = .ok r := by
   induction h with
   | refl => exact hr
-  | step _ ih => exact (runLoop_mono_aux cfg _).1 _ _ _ ih
+  | step _ ih => exact (runLoop_mono_aux C cfg _).1 _ _ _ ih
 
-theorem runFirst_mono (cfg : Cfg) {n m : Nat} (h : n ≤ m) {first w r}
-    (hr : runFirst cfg n first w = .ok r) : runFirst cfg m first w = .ok r := by
+theorem runFirst_mono {κ : Type} (C : CpOps κ) (cfg : Cfg) {n m : Nat} (h : n ≤ m) {first : FrameOrResult κ} {w r}
+    (hr : runFirst C cfg n first w = .ok r) : runFirst C cfg m first w = .ok r := by
   cases first with
-  | frame f => exact runLoop_mono cfg h hr
+  | frame f => exact runLoop_mono C cfg h hr
   | result r' => exact hr
 
-theorem execute_mono {n m : Nat} (h : n ≤ m) {e spec ig fg w r}
-    (hr : execute n e spec ig fg w = .ok r) : execute m e spec ig fg w = .ok r := by
+theorem execute_mono {κ : Type} (C : CpOps κ) {n m : Nat} (h : n ≤ m) {e spec ig fg w r}
+    (hr : execute C n e spec ig fg w = .ok r) : execute C m e spec ig fg w = .ok r := by
   unfold execute at hr ⊢
-  cases hp : prepare e spec ig w with
+  cases hp : prepare C e spec ig w with
   | error err => rw [hp] at hr; simp [bind, Except.bind] at hr
   | ok p =>
     obtain ⟨first, w1, isCreate, refund⟩ := p
     rw [hp] at hr
     simp only [bind, Except.bind] at hr ⊢
-    cases hf : runFirst (e.toCfg spec) n first w1 with
+    cases hf : runFirst C (e.toCfg spec) n first w1 with
     | error err => rw [hf] at hr; simp at hr
     | ok q =>
       rw [hf] at hr
-      rw [runFirst_mono _ h hf]
+      rw [runFirst_mono C _ h hf]
       exact hr
 
 /-- the result of a transaction does not depend on the fuel once the fuel suffices -/
-theorem transact_mono {n m : Nat} (h : n ≤ m) {w e spec r}
-    (hr : transact n w e spec = .ok r) : transact m w e spec = .ok r := by
-  unfold transact at hr ⊢
+theorem transactWith_mono {κ : Type} (C : CpOps κ) {n m : Nat} (h : n ≤ m) {w e spec r}
+    (hr : transactWith C n w e spec = .ok r) : transactWith C m w e spec = .ok r := by
+  unfold transactWith at hr ⊢
   simp only [bind, Except.bind] at hr ⊢
   cases hp : preverify w e (GasCalc.canon spec) with
   | error err => rw [hp] at hr; simp at hr
@@ -90,9 +90,13 @@ theorem transact_mono {n m : Nat} (h : n ≤ m) {w e spec r}
     | some p =>
       obtain ⟨w', ig, fg⟩ := p
       simp only at hr ⊢
-      cases he : execute n e (GasCalc.canon spec) ig fg w' with
+      cases he : execute C n e (GasCalc.canon spec) ig fg w' with
       | error err => rw [he] at hr; simp at hr
-      | ok q => rw [he] at hr; rw [execute_mono h he]; exact hr
+      | ok q => rw [he] at hr; rw [execute_mono C h he]; exact hr
+
+theorem transact_mono {n m : Nat} (h : n ≤ m) {w e spec r}
+    (hr : transact n w e spec = .ok r) : transact m w e spec = .ok r :=
+  transactWith_mono journalOps h hr
 end Revm.Proofs.Evm
 
 namespace Revm.Proofs.Evm
